@@ -417,6 +417,17 @@ func (e *Env) lvalue(ex ast.Expr) *Value {
 	case *ast.StarExpr:
 		return e.eval(n.X)
 	case *ast.SelectorExpr:
+		if id, ok := n.X.(*ast.Ident); ok {
+			if _, isName := e.names[id.Name]; !isName && !e.bound[id.Name] && (e.pkg == nil || e.pkg.Scope().Lookup(id.Name) == nil) {
+				if p := e.importedPkg(id.Name); p != nil {
+					if obj, ok := p.Scope().Lookup(n.Sel.Name).(*types.Var); ok {
+						name := "G_" + smtName(obj.Pkg().Name()+"_"+obj.Name())
+						x.globalDecl(name, fmt.Sprintf("(declare-const %s Int)", name))
+						return &Value{K: KPtr, T: types.NewPointer(obj.Type()), P: &Pointer{Base: name, Root: obj.Type()}}
+					}
+				}
+			}
+		}
 		b := e.eval(n.X)
 		var bp *Pointer
 		if b.K == KPtr {
@@ -453,6 +464,15 @@ func (e *Env) lvalue(ex ast.Expr) *Value {
 		}
 		e.fail("index lvalue on unsupported value")
 	case *ast.Ident:
+		if e.pkg != nil {
+			if _, isName := e.names[n.Name]; !isName {
+				if obj, ok := e.pkg.Scope().Lookup(n.Name).(*types.Var); ok && (e.fn == nil || e.local(n.Name) == nil || e.atBlock == nil) {
+					name := "G_" + smtName(obj.Pkg().Name()+"_"+obj.Name())
+					x.globalDecl(name, fmt.Sprintf("(declare-const %s Int)", name))
+					return &Value{K: KPtr, T: types.NewPointer(obj.Type()), P: &Pointer{Base: name, Root: obj.Type()}}
+				}
+			}
+		}
 		if e.fn != nil {
 			fr := e.st.frames[0]
 			for _, b := range e.fn.Blocks {
